@@ -273,7 +273,10 @@ def expr_text(e, ctx=None):
     raise ValueError(e)
 
 
-BAD_EXPRS = ["][", "1 +", "(a", "a b"]
+# invalid expressions: rejected by the parser, by the tokenizer of Python (1_, 0777), or only when the parsed tree is
+# compiled (repeated keyword, duplicate parameter, yield / await / async comprehension outside a function, __debug__)
+BAD_EXPRS = ["][", "1 +", "(a", "a b", "[x async for x in y]", "f(a=1, a=2)", "lambda a, a: 1", "(yield)", "await x", "*a",
+             "[1 for __debug__ in y]", "f(__debug__=1)", "1_", "0777", "x.1", "a ? b", "return 1"]
 
 
 def const_text(v):
